@@ -212,6 +212,14 @@ func genC09(r *Rnd, t Tier) *Case {
 	sc := &Scenario{Family: "c09"}
 	h := genHedge(r, unit)
 	h.MaxHedges = pick(r, 0, 1, 1, 2, 2, 3)
+	if r.P(0.2) {
+		// a delay function whose later values are larger than the first
+		a := r.Range(1, 6)
+		h.DelayFn = []D{time.Duration(a) * unit, time.Duration(a*r.Range(2, 10)) * unit, time.Duration(r.Range(1, 30)) * unit}
+		if h.MaxHedges < 2 {
+			h.MaxHedges = 2
+		}
+	}
 	if t.Thorough && r.P(0.2) {
 		h.MaxHedges = 4
 	}
@@ -284,6 +292,9 @@ func checkC09(c *checkCtx) {
 						delays = append(delays, time.Duration(e.A))
 					}
 				}
+			}
+			if len(p.DelayFn) > 0 && len(delays) < len(kids)-1 {
+				c.fail("C09.spacing", "delay-not-consulted", fmt.Sprintf("exec %d: %d hedges were started but the delay function was consulted only %d time(s): a hedge started without its own delay", v.ID, len(kids)-1, len(delays)))
 			}
 			cum := time.Duration(0)
 			for k := 1; k < len(kids); k++ {
